@@ -13,7 +13,8 @@ from ..pairs import permuted, shifted, without_rows
 
 FAMILY_P = r"^(pair|same|shift|subset)\."
 FAMILY_L = r"^$"          # single runs are validated for the evidence; their clauses belong to other properties
-DRIVERS = {"pairs-independence": ("harness.checks.c14", "pair_only", "PairTrace", FAMILY_P)}
+DRIVERS = {"pairs-independence": ("harness.checks.c14", "pair_only", "PairTrace", FAMILY_P),
+           "pairs-lonlat-release": ("harness.checks.c14", "pair_only", "PairTrace", FAMILY_P)}
 
 
 def family(rng, k):
@@ -86,6 +87,33 @@ def family(rng, k):
     return dict(base=base, variants=variants, cls=dict(rev=base["rev"], layout=base["layout"], wfield=bool(base.get("wfield")), kills=len(base["killfarm"])))
 
 
+def ll_family(rng):
+    """release rows given by longitude / latitude on a curved grid: the conversion of a row to grid coordinates must not depend on
+    the other rows of the table (the rows are converted in one call)"""
+    from ..pairs import without_rows as _wr
+    base = base_scenario(rng, hasscal=False, ntimes=rng.choice([2, 3]), nsteps=rng.randrange(3, 7), layout="sparse", ops=rng.choice([1, 2]), nkill=0, nfreeze=0,
+                         nland=0, varmetric=False, cont=False, allow_subgrid=rng.random() < 0.4)
+    while True:      # a regular curvilinear grid (cells never collapse), as in C16's grid scenarios
+        geo = (rng.randrange(12, 24), rng.randrange(-6, 7), rng.randrange(8, 16), rng.randrange(-5, 6), rng.randrange(0, 3))
+        if abs(geo[1]) + 3 < geo[2] and abs(geo[3]) + 3 < geo[0]:
+            break
+    base["geo"] = list(geo)
+    base["llrelease"] = True
+    for r in base["rows"]:
+        r["mult"] = 1
+        r["xf"] += rng.randrange(-20, 21) / 1024.0          # off the lattice: the inversion has to iterate
+        r["yf"] += rng.randrange(-20, 21) / 1024.0
+    base["killfarm"] = []
+    farms = [r["id"] for r in base["rows"]]
+    variants = [dict(kind="same", sc=base)]
+    nst = base["cls"]["nsteps"]
+    inw = lambda r: 0 <= ((base["start"] - r["t"]) if base["rev"] else (r["t"] - base["start"])) < nst * base["dt"]
+    for f in farms[:3]:
+        if any(inw(r) for r in base["rows"] if r["id"] != f):
+            variants.append(dict(kind="subset", sc=_wr(base, {f}), deleted=[f]))
+    return dict(base=base, variants=variants, cls=dict(rev=base["rev"], layout="sparse", wfield=False, kills=0, llrelease=True))
+
+
 def pair_only(sc):
     from ..pairs import run_pair
     return run_pair(sc)["pair"]
@@ -113,6 +141,12 @@ def run(tier, seed):
             owners.append(f)
     rep.add_tv("single-runs", "LadimTrace", owners, singles, tlc.validate_traces("LadimTrace", singles, batch_events=1500), family=FAMILY_L)
     rep.add_tv("pairs-independence", "PairTrace", fams, pairs, tlc.validate_traces("PairTrace", pairs, batch_events=400), family=FAMILY_P)
+    # release rows given by longitude / latitude (converted in one call for the whole table): pairs only - where exactly a converted row
+    # starts is C16's business (solver tolerance), that it does not depend on the other rows is this property's
+    rl = random.Random(seed + 47)
+    lf = [ll_family(rl) for _ in range(120 if tier == "thorough" else 30)]
+    lp = pmap("harness.checks.c14", "pair_only", lf)
+    rep.add_tv("pairs-lonlat-release", "PairTrace", lf, lp, tlc.validate_traces("PairTrace", lp, batch_events=400), family=FAMILY_P)
     rep.nontrivial = sum(len(f["variants"]) for f in fams)
     rep.rule = ("families of runs: base scenario (depth-dependent sheared flow over 40/80 m bathymetry, land, scalar forcing, deaths of whole release rows "
                 "scheduled right before output steps, a quarter with vertical advection) + repeat + up to two single-row deletions + a permutation inside "
